@@ -547,8 +547,15 @@ def execute(spec):
     REPEAT[0] = True
     width = spec['width']
     other = {'unrelated': [1, NT('z', [2])], 'k': (3,)}
+    if spec.get('prefault'):
+        # the very first print of this process is a FAILING one (caches filled during a failure must not stick)
+        pf = spec['prefault']
+        _print(v, width, {pf[0]: (pf[1], 'raise', pf[2], None)})
     INVOKED.clear()
     base = _print(v, width, {})
+    if spec.get('prefault'):
+        return dict(steps=1, counters={}, nontrivial=False, digest=core.digest_of([tree, width, 'prefault']),
+                    base_text=base[0], base_warnings=[w[2] for w in base[1]], **{'class': None})
     if 'max_seq_len' in SETTINGS and 'depth' not in SETTINGS:
         # elements beyond max_seq_len are not shown, so their printers have no business running (and failing)
         seen = {}
@@ -640,6 +647,8 @@ def execute(spec):
         if handle(mixed):
             return res
         counters['mixed_pair_cases'] = counters.get('mixed_pair_cases', 0) + 1
+    res['base_text'] = base[0]
+    res['base_warnings'] = [w[2] for w in base[1]]
     res['steps'] = counters.get('fault_cases', 0)
     res['sample'] = dict(invocations=n, width=width, fault_cases=counters.get('fault_cases', 0),
                          text=base[0][1][:300])
@@ -647,7 +656,39 @@ def execute(spec):
 
 
 def run(spec):
+    if spec.get('mode') == 'prefault_compare':
+        k1, r1 = core.in_fork(lambda: execute(dict(spec, mode='prefault', prefault=None)), RUN_TIMEOUT)
+        k2, r2 = core.in_fork(lambda: execute(dict(spec, mode='prefault')), RUN_TIMEOUT)
+        if k1 != 'ok' or k2 != 'ok':
+            return (k1, r1) if k1 != 'ok' else (k2, r2)
+        out = dict(steps=1, counters={}, nontrivial=False, digest=core.digest_of(spec['tree']), **{'class': None})
+        if r1.get('base_text') != r2.get('base_text') or r1.get('base_warnings') != r2.get('base_warnings'):
+            out.update({'class': 'later_call_affected'}, signature='after_failing_first_print',
+                       detail=dict(after_failure=r2.get('base_text'), never_failed=r1.get('base_text')))
+        return 'ok', out
     kind, res = core.in_fork(lambda: execute(spec), RUN_TIMEOUT)
+    if kind == 'ok' and not res.get('class') and spec['mode'] == 'enumerate' and 'base_text' in res \
+            and int(core.digest_of(spec['tree'])[-1], 16) % 3 == 0:
+        # one tree in three: in a pristine process, let the FIRST print be a failing one; the fault-free print
+        # that follows must equal the fault-free print of a process that never saw a failure
+        n = res['counters'].get('invocations', 1)
+        for k in sorted(set([0, 1, n // 2, max(0, n - 1)])):
+            sp2 = dict(spec, prefault=[k, 0, 'ValueError'])
+            k2, r2 = core.in_fork(lambda: execute(sp2), RUN_TIMEOUT)
+            if k2 != 'ok':
+                return k2, r2
+            res['counters']['first_print_failing_cases'] = res['counters'].get('first_print_failing_cases', 0) + 1
+            if r2.get('base_text') != res['base_text'] or r2.get('base_warnings') != res['base_warnings']:
+                res['class'] = 'later_call_affected'
+                res['signature'] = 'after_failing_first_print'
+                res['detail'] = dict(tree=spec['tree'], prefault=sp2['prefault'], after_failure=r2.get('base_text'),
+                                     never_failed=res['base_text'], warnings_after=r2.get('base_warnings'))
+                res['replay_spec'] = dict(spec, mode='prefault_compare', prefault=sp2['prefault'])
+                res.pop('base_text', None)
+                return kind, res
+    if kind == 'ok':
+        res.pop('base_text', None)
+        res.pop('base_warnings', None)
     if kind != 'ok' or not res.get('class') or spec['mode'] == 'explicit':
         return kind, res
     # confirm the single fault in isolation (fresh pristine fork); otherwise the failure needs the
